@@ -32,10 +32,11 @@ def check_C15(tier):
         # "alone" must not depend on what ran before: the same calls in reverse and in shuffled order, each in
         # its own process; all sequential results of one call must agree
         extra_seq = []
-        for oi, order in enumerate(["reverse", "shuffle"] if i == 0 or tier == "thorough" else ["reverse"]):
-            px = run([exe, "-phase", "seq", "-order", order, "-out", tra + "." + order, "-stats", stats + ".seq." + order] + common_args,
+        leads = ["lead:xverify-w%d" % w for w in (17, 31, 5, 257, 4, 256)] + ["lead:xverify-path-2", "lead:desc-bytes-17", "lead:mn-unknown-0", "lead:misc-sha256-16"]
+        for oi, order in enumerate((["reverse", "shuffle"] + leads) if i == 0 or tier == "thorough" else ["reverse"]):
+            px = run([exe, "-phase", "seq", "-order", order, "-out", tra + "." + order.replace(":", "_"), "-stats", stats + ".seq." + order.replace(":", "_")] + common_args,
                      env=env, timeout=1500, ok_codes=(0, 66))
-            extra_seq.append(tra + "." + order)
+            extra_seq.append(tra + "." + order.replace(":", "_"))
             p0.stderr += px.stderr
         p = run([exe, "-phase", "conc", "-rounds", "2" if tier == "quick" else "3", "-out", tr + ".conc", "-stats", stats] + common_args,
                 env=env, timeout=1500, ok_codes=(0, 66, 2))
